@@ -343,7 +343,7 @@ def run(ctx):
     hooks = Hooks(ctx)
     hooks.install_lru_hooks()
     ac = hooks.ac
-    for _, rng in ctx.cases("arrays", ctx.n(1500, 40000)):
+    for _, rng in ctx.cases("arrays", ctx.budget(50000, 900000)):
         ctx.run_case(array_case, ctx, rng)
     # exhaustive routine box
     shapes = [s for n in range(0, 6) for s in itertools.product([1, 2, 3, 4, 6], repeat=n)]
@@ -356,6 +356,6 @@ def run(ctx):
         ctx.run_case(routine_case, ctx, ac, shape, k)
     else:
         ctx.count("enum_complete", "routine-box")
-    for _, rng in ctx.cases("routine-arbitrary", ctx.n(4000, 60000)):
+    for _, rng in ctx.cases("routine-arbitrary", ctx.budget(100000, 1500000)):
         ctx.run_case(routine_unreachable, ctx, ac, rng)
     hooks.uninstall()
